@@ -67,6 +67,9 @@ type c03Job struct {
 	ehints  map[gozxing.EncodeHintType]interface{}
 	reads   []c03Read
 	ref     []bool // reference module pattern of the canonical content (diagnosis of a failed read only)
+	// optional: the content is outside the quantifier's accepted set; a refusal is tolerated (tallied),
+	// but if the writer accepts it the round trip is demanded ("every content its writer accepts")
+	optional string
 }
 
 // c03Read is one reader that must return want (or one of the alternatives).
@@ -132,6 +135,10 @@ func (e *c03Env) c03Do(job *c03Job, sz c03Size) bool {
 		// the writer's default margin: width it chooses by itself minus the bars it drew
 		md, err := w.Encode(job.content, job.format, 0, 1, hints)
 		r.Evals(1)
+		if err != nil && job.optional != "" {
+			r.Tally("dont_care_" + job.optional + "_refused_by_writer")
+			return true
+		}
 		if err != nil || md == nil {
 			e.viol(job.sym+".write:rejects-acceptable-content", fmt.Sprintf("%s writer refused %s (hints %v): %v", job.sym, odQuote(job.content), job.ehints, err), data)
 			return false
@@ -154,6 +161,10 @@ func (e *c03Env) c03Do(job *c03Job, sz c03Size) bool {
 	// natural width: what the writer produces when asked for width 0
 	m0, err := w.Encode(job.content, job.format, 0, sz.height, hints)
 	r.Evals(1)
+	if err != nil && job.optional != "" {
+		r.Tally("dont_care_" + job.optional + "_refused_by_writer")
+		return true
+	}
 	if err != nil || m0 == nil {
 		e.viol(job.sym+".write:rejects-acceptable-content", fmt.Sprintf("%s writer refused %s (hints %v): %v", job.sym, odQuote(job.content), job.ehints, err), data)
 		return false
@@ -185,8 +196,7 @@ func (e *c03Env) c03Do(job *c03Job, sz c03Size) bool {
 			return false
 		}
 		if m.GetWidth() < width || m.GetHeight() < height {
-			e.viol(job.sym+".write:smaller-than-requested", fmt.Sprintf("%s writer returned %dx%d for requested %dx%d", job.sym, m.GetWidth(), m.GetHeight(), width, height), data)
-			return false
+			r.Tally("dont_care_matrix_smaller_than_requested") // the statement speaks of what is read back, not of the matrix size
 		}
 	}
 	r.Tally("written_" + job.sym)
@@ -507,6 +517,17 @@ func (e *c03Env) reject(rj c03Rej) bool {
 	return true
 }
 
+// observe tallies what the writer does with a content on which the statement is silent.
+func (e *c03Env) observe(class string, mk func() gozxing.Writer, format gozxing.BarcodeFormat, content string) {
+	_, err := mk().Encode(content, format, 0, 1, nil)
+	e.r.Evals(1)
+	if err != nil {
+		e.r.Tally("dont_care_" + class + "_refused_by_writer")
+	} else {
+		e.r.Tally("dont_care_" + class + "_accepted_by_writer")
+	}
+}
+
 // non-digit bytes, all of them
 var c03NonDigits = func() []byte {
 	var b []byte
@@ -599,11 +620,9 @@ func c03OtherRejects(e *c03Env, which string) {
 				return
 			}
 		}
-		// full ASCII whose escaped form needs more than 80 symbol characters
+		// full ASCII whose escaped form needs more than 80 symbol characters: the quantifier is silent
 		for k := 0; k < 20; k++ {
-			if !rj("wrong-length", c03ASCII(rng, 41+rng.Intn(40), "l")) {
-				return
-			}
+			e.observe("code39_escaped_form_over_80", oned.NewCode39Writer, gozxing.BarcodeFormat_CODE_39, c03ASCII(rng, 41+rng.Intn(40), "l"))
 		}
 	case "code93":
 		rj := func(class, content string) bool {
@@ -612,15 +631,12 @@ func c03OtherRejects(e *c03Env, which string) {
 		if !rj("wrong-length", "") {
 			return
 		}
+		// more than 80 symbol characters: the quantifier states no Code 93 length limit
 		for n := 81; n <= 100; n++ {
-			if !rj("wrong-length", c03FromAlphabet(rng, onedref.Code93Alphabet[:43], n)) {
-				return
-			}
+			e.observe("code93_over_80_symbol_characters", oned.NewCode93Writer, gozxing.BarcodeFormat_CODE_93, c03FromAlphabet(rng, onedref.Code93Alphabet[:43], n))
 		}
 		for k := 0; k < 20; k++ {
-			if !rj("wrong-length", c03ASCII(rng, 41+rng.Intn(40), "l")) {
-				return
-			}
+			e.observe("code93_over_80_symbol_characters", oned.NewCode93Writer, gozxing.BarcodeFormat_CODE_93, c03ASCII(rng, 41+rng.Intn(40), "l"))
 		}
 		for c := 128; c < 256; c++ {
 			s := c03FromAlphabet(rng, onedref.Code93Alphabet[:43], 1+rng.Intn(10))
@@ -650,11 +666,14 @@ func c03OtherRejects(e *c03Env, which string) {
 				return
 			}
 		}
-		for c := rune(128); c < 0x180; c++ { // Latin-1 / Latin Extended runes; U+00F1..U+00F4 are the writer's FNC escapes
-			if c >= 0xf1 && c <= 0xf4 {
+		for c := rune(128); c < 0x100; c++ { // Latin-1 is reachable through FNC4 in ISO/IEC 15417: refusal not demanded
+			if c >= 0xf1 && c <= 0xf4 { // the writer's FNC escapes
 				continue
 			}
-			if !rj("non-ascii-rune", "AB"+string(c)+"12", "") {
+			e.observe("code128_latin1", oned.NewCode128Writer, gozxing.BarcodeFormat_CODE_128, "AB"+string(c)+"12")
+		}
+		for _, c := range []rune{0x100, 0x101, 0x17f, 0x391, 0x20ac, 0x3042, 0xfffd, 0x1f600} { // beyond Latin-1: not encodable
+			if !rj("rune-beyond-latin1", "AB"+string(c)+"12", "") {
 				return
 			}
 		}
@@ -744,12 +763,9 @@ func c03OtherRejects(e *c03Env, which string) {
 		for _, a := range c03GuardsNormal {
 			for _, b := range c03GuardsAlt {
 				d := c03FromAlphabet(rng, c03CodabarData, 2+rng.Intn(8))
-				if !rj("mixed-guard-families", string(a)+d+string(b)) {
-					return
-				}
-				if !rj("mixed-guard-families", string(b)+d+string(a)) {
-					return
-				}
+				// A..E etc.: T N * E are other names of A B C D, so refusal is not demanded
+				e.observe("codabar_mixed_guard_families", oned.NewCodaBarWriter, gozxing.BarcodeFormat_CODABAR, string(a)+d+string(b))
+				e.observe("codabar_mixed_guard_families", oned.NewCodaBarWriter, gozxing.BarcodeFormat_CODABAR, string(b)+d+string(a))
 			}
 		}
 	}
@@ -845,7 +861,7 @@ func c03Sweep(r *fw.Rec, s *odUPCEAN, lo, hi, sample int) {
 func c03(c *fw.Ctx) {
 	c.Rule("per symbology seeded contents from the accepted set of the quantifier (EAN-13 12/13, EAN-8 7/8, UPC-A 11/12, UPC-E 7/8 digits with number system 0/1, incl. all-0, all-9 and zero-rich numbers; Code 39 1..80 alphabet characters and full ASCII whose escaped form fits 80; Code 93 ASCII 0..127 fitting 80 symbol characters; Code 128 ASCII 0..127 up to 80 with digit runs of every parity at start/middle/end, controls, lower case and DEL, and every content of forced code sets A (0..95), B (32..127), C (even digit strings); ITF every length 6..14 and 16..80; Codabar 2..40 data characters bare and with all 16 normal, 16 alternate and lower-case guard pairs) x requested width in {0, natural, natural+k, 2..6 x natural + k}, height 0..80, MARGIN hint absent / default / default+1..40 (int and string form); systematic cases: every single character of each alphabet, every Code 128 digit-run length 1..12 in every context; rejection list: every wrong length, every byte outside the alphabet, every wrong check digit, unpaired/mixed Codabar guards; sweeps: all (thorough) or 100 000 sampled (quick) UPC-E numbers and EAN-8 payloads at height 1. Expected text comes from onedref (independent mod-10, UPC-E expansion, escape tables). distinct = distinct (symbology, content, size)")
 	c.Assume("natural width is taken from the writer's own answer to width 0 (workload only, not oracle); images above 160 000 pixels get their height reduced")
-	c.Assume("don't care (DESIGN C03): multi-format reader without POSSIBLE_FORMATS may report a UPC-A symbol as EAN-13 '0'+content; Code 39 is read with the plain reader when the content lies inside the 43-character alphabet and with the extended reader otherwise (the inherent ambiguity of full-ASCII Code 39 is not charged); ITF lengths 2 and 4 (outside the reader's accepted lengths) and Codabar with fewer than 2 data characters are outside the quantifier and only tallied; Code 39 / Code 93 full-ASCII contents whose escaped form exceeds 80 symbol characters are expected to be refused (the writers' stated limit); Code 128 FNC escapes U+00F1..U+00F4 are not content and not generated")
+	c.Assume("don't care (DESIGN C03): multi-format reader without POSSIBLE_FORMATS may report a UPC-A symbol as EAN-13 '0'+content; Code 39 is read with the plain reader when the content lies inside the 43-character alphabet and with the extended reader otherwise (the inherent ambiguity of full-ASCII Code 39 is not charged); ITF lengths 2 and 4 (outside the reader's accepted lengths) and Codabar with fewer than 2 data characters are outside the quantifier and only tallied; Code 39 full-ASCII contents whose escaped form exceeds 80 symbol characters, Code 93 contents over 80 symbol characters, Code 128 Latin-1 characters 128..255 (reachable through FNC4 in ISO/IEC 15417), Codabar contents mixing the guard families (A..E) and the size of the returned matrix are not fixed by the statement: observed and tallied only; lower-case Codabar guards may be refused, but must round-trip if accepted; Code 128 FNC escapes U+00F1..U+00F4 are not content and not generated")
 	c.Assume("Codabar canonical form: the default reader returns the data characters without start/stop; with RETURN_CODABAR_START_END the canonical letters A-D (T N * E and lower case are aliases, bare data gets A..A)")
 	c.Assume("forced code set: the accepted set is the set's character repertoire of ISO/IEC 15417 (A: 0..95, B: 32..127, C: digit pairs); a refusal of such a content is charged as 'writer rejects an acceptable content'")
 
@@ -854,7 +870,7 @@ func c03(c *fw.Ctx) {
 	// --- UPC/EAN round trips ---
 	for _, s := range odAllUPCEAN {
 		s := s
-		ncase := c.Pick(800, 4000)
+		ncase := c.Pick(800, 10000)
 		for i := 0; i < ncase; i++ {
 			c.Run(fmt.Sprintf("%s/rt/%d", s.name, i), func(r *fw.Rec) {
 				e := newC03Env(r)
@@ -876,7 +892,7 @@ func c03(c *fw.Ctx) {
 		}
 	}
 	// --- Code 39 ---
-	ncase := c.Pick(700, 3500)
+	ncase := c.Pick(700, 9000)
 	for i := 0; i < ncase; i++ {
 		c.Run(fmt.Sprintf("code39/rt/%d", i), func(r *fw.Rec) {
 			e := newC03Env(r)
@@ -919,9 +935,9 @@ func c03(c *fw.Ctx) {
 	// --- Code 128: auto and forced sets ---
 	for _, force := range []string{"", "A", "B", "C"} {
 		force := force
-		n128 := c.Pick(500, 2500)
+		n128 := c.Pick(500, 6000)
 		if force == "" {
-			n128 = c.Pick(1500, 7500)
+			n128 = c.Pick(1500, 18000)
 		}
 		for i := 0; i < n128; i++ {
 			c.Run(fmt.Sprintf("code128/%s/%d", map[string]string{"": "auto", "A": "A", "B": "B", "C": "C"}[force], i), func(r *fw.Rec) {
@@ -956,7 +972,7 @@ func c03(c *fw.Ctx) {
 		}
 	}
 	// --- ITF ---
-	nitf := c.Pick(15, 80)
+	nitf := c.Pick(15, 200)
 	for _, n := range c03ITFLengths {
 		n := n
 		for i := 0; i < nitf; i++ {
@@ -1003,7 +1019,7 @@ func c03(c *fw.Ctx) {
 		}
 	})
 	// --- Codabar ---
-	ncb := c.Pick(700, 3500)
+	ncb := c.Pick(700, 9000)
 	for i := 0; i < ncb; i++ {
 		c.Run(fmt.Sprintf("codabar/rt/%d", i), func(r *fw.Rec) {
 			e := newC03Env(r)
@@ -1030,6 +1046,7 @@ func c03(c *fw.Ctx) {
 						b = lower(b)
 					}
 					job = c03CodabarJob(a, data, b)
+					job.optional = "codabar_lower_case_guards"
 				}
 				sz := c03RandSize(r.Rng)
 				if !e.c03Do(job, sz) {
@@ -1047,6 +1064,9 @@ func c03(c *fw.Ctx) {
 				for j := 0; j < 4; j++ {
 					data := c03FromAlphabet(r.Rng, c03CodabarData, 2+r.Rng.Intn(12))
 					job := c03CodabarJob(fam[i], data, fam[j])
+					if fam[0] >= 'a' {
+						job.optional = "codabar_lower_case_guards"
+					}
 					if !e.c03Do(job, c03RandSize(r.Rng)) {
 						return
 					}
